@@ -170,10 +170,49 @@ def fresh_keywords(ctx, cq):
         ctx.undecided("C03.4", init, "assignment of self.kws not found")
         return
     for a in st:
-        fresh = isinstance(a.value, ast.Dict) or (isinstance(a.value, ast.Call) and norm(a.value.func) in ("dict",)) or \
-            (isinstance(a.value, ast.Call) and isinstance(a.value.func, ast.Attribute) and a.value.func.attr == "copy")
-        ctx.decide("C03.4", init, fresh, "%s: the hasher keywords (carrying the pad switch) are a dictionary created for this instance" % cls.name,
-                   "%s: self.kws is bound to %s, an object shared between instances: the pad switch a single-file torrent turns off stays off for a later multi-file hybrid in the same process" % (cls.name, norm(a.value)), a)
+        kind = _dict_provenance(ctx, init, a.value, 0)
+        if kind == "fresh":
+            ctx.holds("C03.4", init, "%s: the hasher keywords (carrying the pad switch) are a dictionary created for this instance" % cls.name, a)
+        elif kind == "shared":
+            ctx.violated("C03.4", init, "%s: self.kws is bound to %s, an object shared between instances: the pad switch a single-file torrent turns off stays off for a later multi-file hybrid in the same process" % (cls.name, norm(a.value)), a)
+        else:
+            ctx.undecided("C03.4", init, "%s: self.kws is bound to %s; whether that is a dictionary of this instance alone could not be established" % (cls.name, norm(a.value)), a)
+
+
+def _dict_provenance(ctx, fn, e, depth):
+    """'fresh' (created where it is evaluated: a display, dict(...), a copy, or a package function all of whose results are),
+    'shared' (a class-level or module-level container, directly or returned by a package function), else None."""
+    if depth > 3:
+        return None
+    if isinstance(e, (ast.Dict, ast.DictComp)) or (isinstance(e, ast.Call) and norm(e.func) in ("dict", "collections.OrderedDict", "OrderedDict")) or \
+            (isinstance(e, ast.Call) and isinstance(e.func, ast.Attribute) and e.func.attr == "copy") or (isinstance(e, ast.Call) and norm(e.func) in ("copy.copy", "copy.deepcopy")):
+        return "fresh"
+    if isinstance(e, ast.Attribute) and isinstance(e.value, ast.Name) and fn.cls is not None and e.value.id in (fn.self_name, fn.cls.name, "cls"):
+        for c in [fn.cls] + [b for b in ctx.prog.mro(fn.cls) if b is not fn.cls]:
+            if e.attr in c.class_assigns:
+                return "shared" if any(isinstance(v, (ast.Dict, ast.DictComp, ast.Call)) for v in c.class_assigns[e.attr]) else None
+        return None
+    if isinstance(e, ast.Name):
+        bl = ctx.res.bindings(fn).get(e.id, [])
+        vals = [p_ for w_, p_ in bl if w_ == "value"]
+        if bl and len(vals) == len(bl):
+            kinds = {_dict_provenance(ctx, fn, v, depth + 1) for v in vals}
+            return kinds.pop() if len(kinds) == 1 else None
+        if not bl and e.id in fn.module.assigns:
+            return "shared" if any(isinstance(v, (ast.Dict, ast.DictComp, ast.Call)) for v in fn.module.assigns[e.id]) else None
+        return None
+    if isinstance(e, ast.Call):
+        tg = C.targets_of(ctx, fn, e)
+        if tg and all(not t.is_generator for t in tg):
+            kinds = set()
+            for t in tg:
+                rets = [r.value for r in own_nodes(t.node) if isinstance(r, ast.Return) and r.value is not None]
+                if not rets:
+                    return None
+                for r in rets:
+                    kinds.add(_dict_provenance(ctx, t, r, depth + 1))
+            return kinds.pop() if len(kinds) == 1 else None
+    return None
 
 
 def run(ctx):
